@@ -30,10 +30,12 @@ PALETTES = [
 
 TIERS = {
     # ids, (full: maxlen, maxarg, idxspan, slicespan), walks, depth
-    "quick": {"full": {"ids": 3, "MaxLen": 3, "MaxArg": 2, "IdxSpan": 4, "SliceSpan": 4, "Depth": 1},
+    "quick": {"full": {"ids": 3, "MaxLen": 3, "MaxArg": 2, "IdxSpan": 4, "SliceSpan": 4, "Depth": 1,
+                       "DerStarts": ["none", "copy"]},
               "walk": {"ids": 4, "MaxLen": 4, "MaxArg": 3, "IdxSpan": 6, "SliceSpan": 5, "Depth": 12, "NWalks": 1500},
               "palettes": 2},
-    "thorough": {"full": {"ids": 4, "MaxLen": 4, "MaxArg": 2, "IdxSpan": 5, "SliceSpan": 5, "Depth": 1},
+    "thorough": {"full": {"ids": 4, "MaxLen": 4, "MaxArg": 2, "IdxSpan": 5, "SliceSpan": 5, "Depth": 1,
+                          "DerStarts": ["none", "copy", "swapped"]},
                  "walk": {"ids": 4, "MaxLen": 4, "MaxArg": 3, "IdxSpan": 6, "SliceSpan": 5, "Depth": 14, "NWalks": 40000},
                  "palettes": 3},
 }
@@ -44,7 +46,7 @@ def _consts(mode, p, sd, emit=True, bug="none"):
     ids = IDS[:p["ids"]]
     return ({"Ids": set(ids), "Mode": mode, "Depth": p["Depth"], "MaxLen": p["MaxLen"], "MaxArg": p["MaxArg"],
              "IdxSpan": p["IdxSpan"], "SliceSpan": p["SliceSpan"], "NWalks": p.get("NWalks", 1),
-             "Seed": sd % 60000, "Emit": emit, "Bug": bug},
+             "Seed": sd % 60000, "Emit": emit, "Bug": bug, "DerStarts": set(p.get("DerStarts", ["none"]))},
             {"IdSeq": "IdSeq%d" % len(ids)})
 
 
@@ -115,6 +117,14 @@ class Driver:
             self.objs[key] = ob
         return self.objs[key]
 
+    def _adopt(self, l):
+        """the operations now go to list l: its element objects are THE objects of their (id, version) -- a pickled or
+        deep-copied list holds copies of the elements, and remove(obj) / -= [obj] are by object"""
+        for ob in list.__iter__(l):
+            a = self.abs_obj(ob)
+            if a["v"] != -7 and not a["id"].startswith("?"):
+                self.objs[(a["id"], a["v"])] = ob
+
     def abs_obj(self, ob):
         cid = ob.id
         for k, v in self.conc.items():
@@ -161,6 +171,7 @@ class Driver:
                 "n": 0}
 
     def ret_list(self, r):
+        self._last = r          # the returned list object becomes the derived list
         p = self.project(r)
         p["n"] = len(r)
         return p
@@ -179,6 +190,21 @@ class Driver:
             l = DictList()
             for o in start:
                 l.append(o)
+        # the derived list of the start state (DictList.tla: der0): a copy of the start list made in one of the
+        # documented ways; "swapped": the operations go to the copy and the original is the derived list
+        der = None
+        der0 = beh.get("der0", "none")
+        if der0 != "none":
+            how = variant % 5
+            der = (copy.copy(l) if how == 0 else DictList(l) if how == 1 else l[:] if how == 2
+                   else pickle.loads(pickle.dumps(l)) if how == 3 else copy.deepcopy(l))
+            if how >= 3:        # pickle / deepcopy copy the elements as well: keep their version marks
+                for o in list.__iter__(der):
+                    if not hasattr(o, "_vv"):
+                        o._vv = -7
+            if der0 == "swapped":
+                l, der = der, l
+                self._adopt(l)
         events = []
         ops = [{"op": "init"}] + list(beh["ops"])
         for k, op in enumerate(ops):
@@ -191,6 +217,15 @@ class Driver:
                     sl = slice(None if op["a"] == NONE_IDX else op["a"], None if op["b"] == NONE_IDX else op["b"])
                 if kind == "init":
                     pass
+                elif kind == "swap":
+                    if der is None:
+                        raises = "skip"
+                    else:
+                        l, der = der, l
+                        self._adopt(l)
+                elif kind == "deepcopy":
+                    ret = self.ret_list(copy.deepcopy(l))
+                    der = self._last
                 elif kind == "append":
                     l.append(self.O(op["x"]))
                 elif kind == "add":
@@ -236,6 +271,7 @@ class Driver:
                     l.reverse()
                 elif kind == "getslice":
                     ret = self.ret_list(l[sl])
+                    der = self._last
                 elif kind == "query":
                     want = {self.conc[q] for q in op["qs"]}
                     if want and (k + variant) % 2:
@@ -243,15 +279,20 @@ class Driver:
                         ret = self.ret_list(l.query(rx, "id") if variant % 3 else l.query(rx))
                     else:
                         ret = self.ret_list(l.query(lambda o: o.id in want))
+                    der = self._last
                 elif kind == "copy":
                     r = copy.copy(l) if (k + variant) % 2 else DictList(l)
                     ret = self.ret_list(r)
+                    der = self._last
                 elif kind == "pickle":
                     ret = self.ret_list(pickle.loads(pickle.dumps(l, protocol=(k + variant) % 3 + 2)))
+                    der = self._last
                 elif kind == "addop":
                     ret = self.ret_list(l + [self.O(o) for o in op["xs"]])
+                    der = self._last
                 elif kind == "subop":
                     ret = self.ret_list(l - [self.O(o) for o in op["xs"]])
+                    der = self._last
                 elif kind == "getitem":
                     ret = self.ret_obj(l[op["i"]])
                 elif kind == "rename":
@@ -270,6 +311,7 @@ class Driver:
                             del self.objs[kk]
                         self.objs[(op["nid"], ob._vv)] = ob
                         l._generate_index()
+                        der = None      # the renamed object is shared with the derived list: given up
                 else:
                     raise C.Machinery("unknown op %r" % (kind,))
             except C.Machinery:
@@ -277,8 +319,10 @@ class Driver:
             except Exception as e:      # the outcome of the call under test
                 raises = type(e).__name__
                 ret = self.noret()
-            events.append({"op": op, "raises": raises, "post": self.project(l), "ret": ret})
-        return {"tid": tid, "start": beh["start"], "events": events}
+            dp = self.project(der) if der is not None else self.noret()
+            dp["present"] = der is not None
+            events.append({"op": op, "raises": raises, "post": self.project(l), "ret": ret, "der": dp})
+        return {"tid": tid, "start": beh["start"], "der0": der0, "events": events}
 
 
 def _drive_chunk(args):
@@ -405,7 +449,7 @@ def run(prop, tier, replay=None):
             rep.coverage["trace_checker_cmd"] = cmd
     missing = [k for k in ["append", "add", "extend", "iadd", "union", "insert", "pop", "poplast", "delitem", "remove",
                            "removeid", "isub", "setitem", "setslice", "delslice", "sort", "sortrev", "reverse",
-                           "getslice", "query", "copy", "pickle", "addop", "subop", "getitem", "rename"]
+                           "getslice", "query", "copy", "pickle", "addop", "subop", "getitem", "rename", "swap", "deepcopy"]
                if not per_action.get(k)]
     if missing:
         raise C.Machinery("vacuity: actions never exercised: %s" % missing)
